@@ -3,6 +3,14 @@ package main
 // props is the per-property run configuration. Case counts bound the work
 // (never wall clock); TimeoutS is only a safety net that yields exit 2.
 var props = map[string]propCfg{
+	"C14": {
+		Test:     "TestC14",
+		Quick:    tierCfg{Shards: 8, Checks: 4000, TimeoutS: 900},
+		Thorough: tierCfg{Shards: 16, Checks: 200000, TimeoutS: 14400},
+		Rule:     "each case = (valid nested document with duplicate/escaped/case-variant keys, wide objects of 15..40 members and white-space runs; a path of 0..4 keys/indexes drawn by walking the reference tree - existing members incl. later duplicates, missing keys, out-of-range indexes, steps into scalars; SearchOptions in 2^3; one of 9 entry points: Get, GetFromString, GetCopyFromString, GetWithOptions, NewSearcher, NewRaw+GetByPath, Get+chained Get/Index, LoadAll+GetByPath, NewRawConcurrentRead+chain). Oracle: harness/ref ordered tree (first occurrence of a duplicated key): exists <=> node returned; Raw token-equal to the source span; Interface/InterfaceUseNumber deep-equal encoding/json on the span; typed accessors (String, StrictString, Bool, Number, Float64, StrictInt64) equal the std-decoded value; Array/ArrayUseNode/Values/Map/Properties/ForEach enumerate children in source order; Get(key) on the located object returns the first occurrence; ast.Preorder(span) yields exactly the reference event stream (OnInt64 iff integer literal in int64 range). Evaluations count these sub-checks. Non-trivial: path length >= 1 and document depth >= 2. Distinct = distinct canonical case encodings.",
+		Assume:   []string{"keys spelled with lone surrogate escapes are outside the domain (a Go string path cannot name them)", "Get on a path is only required to be right for well-formed documents (documented)"},
+		EssentialClasses: []string{"found", "missing", "dup-key", "wide>16", "pathlen=3", "entry:LoadAll.GetByPath", "entry:ast.NewSearcher"},
+	},
 	"C02": {
 		Test:     "TestC02",
 		Quick:    tierCfg{Shards: 8, Checks: 25000, TimeoutS: 900},
